@@ -14,6 +14,7 @@ Case kinds (`op`):
 """
 import contextlib
 import io
+import json
 import os
 import shutil
 import sys
@@ -432,7 +433,7 @@ def write_text(fn, text):
         fd.write(text)
 
 
-def apply_mods(kg, mods, log):
+def apply_mods(kg, mods, log, direct=False):
     for m in mods:
         f0 = FUNCS[m["f"]]
 
@@ -443,6 +444,12 @@ def apply_mods(kg, mods, log):
         tier = kg.getTier(m["sec"])
         if m.get("sub") is None:
             tier.modifyValues(f)
+        elif direct:
+            # the route of examples/klatt_resynthesis.py: modifyValues on the sub-tier objects themselves, in the order
+            # modifySubtiers visits them (round 3, C19-v1: a text cache that only modifySubtiers invalidates)
+            kit = tier.tierDict[m["sub"]]
+            for name in kit.tierNameList:
+                kit.tierDict[name].modifyValues(f)
         else:
             tier.modifySubtiers(m["sub"], f)
 
@@ -462,7 +469,15 @@ def impl_kg(c):
         kg = o[1]
         r["tree0"] = snap_kg(kg)
         log = []
-        o = call(lambda: apply_mods(kg, c["mods"], log))
+        # every other case the object has a past when it is modified: it has been saved once already, and the sub-tiers
+        # are then modified directly; both are deterministic functions of the case
+        past = (len(c["mods"]) + len(json.dumps(c["mods"], sort_keys=True, default=str))) % 2 == 1
+        if past:
+            o = call(lambda: kg.save(os.path.join(d, "zero.KlattGrid")))
+            if o[0] == "err":
+                return {"fail": ("save-before-modify", o[1])}
+            r["tree0"] = snap_kg(kg)       # save passes minTimestamps through toIntOrFloat (as recorded for tree1s below)
+        o = call(lambda: apply_mods(kg, c["mods"], log, direct=past))
         if o[0] == "err":
             return {"fail": ("modify", o[1])}
         r["calls"] = log
